@@ -69,7 +69,7 @@ _NOT_COVERED_BLOCKS = ['derive-generated sync work(): only a BOUNDED drip-feed s
                        'ToText', 'FftStream', 'CorrelateAccessCode*', 'BurstTagger', 'Tee/Add/AddConst/MultiplyConst/convert (macro-generated loops)',
                        'Delay::set_delay', 'every derive-generated sync work()']
 
-_BU = ['skip', 'delay', 'vsrc', 'v2s', 'consts', 'resampler', 'rtlsdr', 's2pdu']
+_BU = ['skip', 'delay', 'vsrc', 'v2s', 'consts', 'resampler', 'rtlsdr', 's2pdu', 'hilbert']
 _FIR = ['fir']
 P['C08'] = {
     'units': list(_BU) + _FIR + ['bx:sync'],
@@ -93,14 +93,14 @@ P['C10'] = {
     'not_covered': _NOT_COVERED_BLOCKS, 'assumptions': _BLOCK_ASSUME,
 }
 P['C12'] = {
-    'units': ['ring', 'skip', 'delay', 'vsrc', 'v2s', 'fir', 'kernels', 'bx:sync'],
+    'units': ['ring', 'skip', 'delay', 'vsrc', 'v2s', 'fir', 'hilbert', 'kernels', 'bx:sync'],
     'technique': 'Verus: caller-against-callee check of the stream contract tag.pos < n at every produce() call site + tag-transfer clause of each block invariant',
     'level_text': 'Deductive proof for a stated subset: (a) every produce(n, tags) call site in covered bodies establishes tag.pos < n (the precondition Buffer::produce carries in unit ring); (b) dst.tags == G(src tags of consumed samples): identity after the skip for Skip, shift by the delay for Delay, marker tags once per repetition for VectorSource, start/end per packet for VecToStream.',
     'level_note': 'Subset only: FirFilter (/deci), Hilbert, FftFilter, correlator, burst tagger, Tee and macro-generated tag forwarding are not decided.',
     'not_covered': _NOT_COVERED_BLOCKS + ['FirFilter / FftFilter / Hilbert tag forwarding'], 'assumptions': _BLOCK_ASSUME,
 }
 P['C15'] = {
-    'units': ['skip', 'delay', 'v2s', 'fir', 'resampler', 'rtlsdr', 's2pdu', 'hdlc', 'tcp', 'au', 'kani:lfsr', 'kani:hdlc', 'kani:codecs'],
+    'units': ['skip', 'delay', 'v2s', 'fir', 'resampler', 'rtlsdr', 's2pdu', 'hilbert', 'hdlc', 'tcp', 'au', 'kani:lfsr', 'kani:hdlc', 'kani:codecs'],
     'technique': 'Verus panic-freedom obligations (refuse/overflow/bounds/callee preconditions unreachable for arbitrary sample values) + Kani totality harnesses over all input bytes',
     'level_text': 'Deductive proof for a stated subset: in the covered work() bodies no panic site is reachable for any sample values; bits2byte, calc_crc (lengths 1..2, thorough ..4) and the codecs\' parse never panic for any byte values; the two LFSR steps are checked for every input byte.',
     'level_note': 'Subset only: AuDecode header arithmetic, HdlcDeframer::update_state, wpcr, sigmf, StreamToPdu, symbol sync, zero crossing are not decided.',
